@@ -11,10 +11,76 @@ thread_local! {
     static MAX_REQ: Cell<usize> = const { Cell::new(0) };
     static LIVE: Cell<isize> = const { Cell::new(0) };
     static PEAK: Cell<isize> = const { Cell::new(0) };
+    static RUN: Cell<u64> = const { Cell::new(u64::MAX) };
+}
+
+/// tell the allocator which run index the calling worker thread is executing
+pub fn set_run(i: u64) {
+    RUN.with(|r| r.set(i));
+}
+
+/// Requests above this size made while a run is being measured are refused (null), which makes
+/// std abort the process: an allocation proportional to a size merely declared on the wire.
+/// Before that, the run index is written to stderr with a raw write(2) so that the wrapper can
+/// name the culprit.
+pub const HARD_CAP: usize = 1 << 30;
+
+extern "C" {
+    fn write(fd: i32, buf: *const u8, count: usize) -> isize;
+}
+
+fn refuse(n: usize) -> bool {
+    let on = ON.try_with(|o| o.get()).unwrap_or(false);
+    if !on || n <= HARD_CAP {
+        return false;
+    }
+    let run = RUN.try_with(|r| r.get()).unwrap_or(u64::MAX);
+    // format without allocating
+    let mut buf = [0u8; 96];
+    let mut p = 0;
+    let mut put = |s: &[u8], buf: &mut [u8; 96], p: &mut usize| {
+        for b in s {
+            if *p < 95 {
+                buf[*p] = *b;
+                *p += 1;
+            }
+        }
+    };
+    let mut num = |mut v: u64, buf: &mut [u8; 96], p: &mut usize| {
+        let mut d = [0u8; 20];
+        let mut i = 20;
+        if v == 0 {
+            i -= 1;
+            d[i] = b'0';
+        }
+        while v > 0 {
+            i -= 1;
+            d[i] = b'0' + (v % 10) as u8;
+            v /= 10;
+        }
+        for b in &d[i..] {
+            if *p < 95 {
+                buf[*p] = *b;
+                *p += 1;
+            }
+        }
+    };
+    put(b"ALLOC-CAP run=", &mut buf, &mut p);
+    num(run, &mut buf, &mut p);
+    put(b" size=", &mut buf, &mut p);
+    num(n as u64, &mut buf, &mut p);
+    put(b"\n", &mut buf, &mut p);
+    unsafe {
+        write(2, buf.as_ptr(), p);
+    }
+    true
 }
 
 unsafe impl GlobalAlloc for Counting {
     unsafe fn alloc(&self, l: Layout) -> *mut u8 {
+        if refuse(l.size()) {
+            return std::ptr::null_mut();
+        }
         note_alloc(l.size());
         System.alloc(l)
     }
@@ -23,10 +89,16 @@ unsafe impl GlobalAlloc for Counting {
         System.dealloc(p, l)
     }
     unsafe fn alloc_zeroed(&self, l: Layout) -> *mut u8 {
+        if refuse(l.size()) {
+            return std::ptr::null_mut();
+        }
         note_alloc(l.size());
         System.alloc_zeroed(l)
     }
     unsafe fn realloc(&self, p: *mut u8, l: Layout, new: usize) -> *mut u8 {
+        if refuse(new) {
+            return std::ptr::null_mut();
+        }
         note_free(l.size());
         note_alloc(new);
         System.realloc(p, l, new)
